@@ -325,41 +325,47 @@ Proof.
 Qed.
 
 (* ---- a directly selected field survives flattening ---- *)
-Lemma flatten_field_in S frs rt : forall g r sels fns al n c ms sub,
-  flatten g S frs rt r sels = Some fns -> In (SField al n c ms sub) sels -> In (fnode_of al n c ms sub) fns.
+Lemma flattenM_field_in S frs rt : forall g r sels fns ms al n c mx sub,
+  flattenM g S frs rt r sels = Some (fns, ms) -> In (SField al n c mx sub) sels ->
+  In (fnode_of al n c mx sub) fns.
 Proof.
-  intros g r sels fns al n c ms sub Hf Hin. destruct g as [|g]; [discriminate Hf|]. simpl in Hf.
-  assert (G : forall sels l fns,
-            fold_left (flatten_step (flatten g S frs rt) S frs rt r) sels (Some l) = Some fns ->
+  intros g r sels fns ms al n c mx sub Hf Hin. destruct g as [|g]; [discriminate Hf|]. simpl in Hf.
+  assert (G : forall sels l m fns ms,
+            fold_left (flattenM_step (flattenM g S frs rt) S frs rt r) sels (Some (l, m)) = Some (fns, ms) ->
             (forall x, In x l -> In x fns) /\
-            (In (SField al n c ms sub) sels -> In (fnode_of al n c ms sub) fns)).
-  { clear. induction sels as [|s sels IH]; intros l fns Hf; cbn [fold_left] in Hf.
+            (In (SField al n c mx sub) sels -> In (fnode_of al n c mx sub) fns)).
+  { clear. induction sels as [|s sels IH]; intros l m fns ms Hf; cbn [fold_left] in Hf.
     - inversion Hf; subst. split; [auto | intros []].
-    - destruct (flatten_step (flatten g S frs rt) S frs rt r (Some l) s) as [l'|] eqn:Es;
-        [| rewrite flatten_fold_none in Hf; discriminate].
-      destruct (IH _ _ Hf) as [I1 I2].
+    - destruct (flattenM_step (flattenM g S frs rt) S frs rt r (Some (l, m)) s) as [[l' m']|] eqn:Es;
+        [| rewrite flattenM_fold_none in Hf; discriminate].
+      destruct (IH _ _ _ _ Hf) as [I1 I2].
       assert (Hl : forall x, In x l -> In x l').
-      { intros x Hx. unfold flatten_step in Es.
+      { intros x Hx. unfold flattenM_step in Es.
         destruct s as [al' n' c' ms' sub' | n' c' | tc c' sub'].
         - inversion Es; subst. apply in_or_app. left; exact Hx.
         - destruct c'; [discriminate|]. destruct (lookup_frag frs n'); [| discriminate].
           destruct (lookup_type S r); [| discriminate]. destruct (lookup_type S (fr_on f)); [| discriminate].
-          destruct (unpack_fragment S f (Some r)); [| discriminate].
-          destruct (String.eqb (fr_on f) r || (is_abstract t0 && is_sub_type S (fr_on f) r));
-            destruct (type_applies S rt (fr_on f)); try discriminate.
-          + destruct (flatten g S frs rt r (fr_sel f)); [| discriminate]. inversion Es; subst.
-            apply in_or_app. left; exact Hx.
-          + inversion Es; subst. exact Hx.
+          destruct (unpack_fragment S f (Some r)).
+          + destruct (String.eqb (fr_on f) r || (is_abstract t0 && is_sub_type S (fr_on f) r));
+              destruct (type_applies S rt (fr_on f)); try discriminate.
+            * destruct (flattenM g S frs rt r (fr_sel f)) as [[? ?]|]; [| discriminate]. inversion Es; subst.
+              apply in_or_app. left; exact Hx.
+            * inversion Es; subst. exact Hx.
+          + destruct (type_applies S rt (fr_on f)); [| discriminate]. inversion Es; subst. exact Hx.
         - destruct tc as [tc|]; [| discriminate]. destruct c'; [discriminate|].
           destruct (inline_root_type S tc r); destruct (type_applies S rt tc); try discriminate.
-          + destruct (flatten g S frs rt s sub'); [| discriminate]. inversion Es; subst.
+          + destruct (flattenM g S frs rt s sub') as [[? ?]|]; [| discriminate]. inversion Es; subst.
             apply in_or_app. left; exact Hx.
           + inversion Es; subst. exact Hx. }
       split; [intros x Hx; apply I1, Hl, Hx|].
       intros [E | Hin]; [| apply I2, Hin]. subst s. simpl in Es. inversion Es; subst.
       apply I1. apply in_or_app. right. left. reflexivity. }
-  destruct (G _ _ _ Hf) as [_ G2]. apply G2, Hin.
+  destruct (G _ _ _ _ _ Hf) as [_ G2]. apply G2, Hin.
 Qed.
+
+Lemma flatten_field_in S frs rt g r sels fns al n c ms sub :
+  flatten g S frs rt r sels = Some fns -> In (SField al n c ms sub) sels -> In (fnode_of al n c ms sub) fns.
+Proof. intros H. apply flatten_M in H. eapply flattenM_field_in; eauto. Qed.
 
 Lemma has_typename_flatten S frs rt g r sels fns :
   has_typename sels = true -> flatten g S frs rt r sels = Some fns ->
